@@ -34,6 +34,14 @@ func boundaryYears() []int {
 	add(2099, 2101)
 	add(2999, 3001)
 	add(9990, 9998)
+	// Julian-only leap days (century years that are leap in the Julian calendar but not in the proleptic Gregorian one)
+	for _, y := range []int{100, 200, 300, 500, 600, 700, 900, 1000, 1100, 1300, 1400, 1500} {
+		ys = append(ys, y)
+	}
+	// years with (or right after) a leap 11th / 12th month, on both sides of the 1575..3357 stretch that has no leap 12
+	for _, y := range []int{37, 38, 75, 76, 1574, 1575, 1576, 2128, 2129, 3358, 3359} {
+		ys = append(ys, y)
+	}
 	return ys
 }
 
